@@ -124,7 +124,9 @@ func main() {
 		}
 	}
 
+	verifPoint("wait", "")
 	fileSync.Wait()
+	verifPoint("exit", "")
 }
 
 func walker(path string, d fs.DirEntry, err error) error {
@@ -135,7 +137,10 @@ func walker(path string, d fs.DirEntry, err error) error {
 
 	if !d.IsDir() {
 		semaphore <- struct{}{}
+		verifPoint("acquire", path)
 		fileSync.Add(1)
+		verifPoint("add", path)
+		verifPoint("spawn", path)
 
 		if *concurrent > 1 {
 			go runXpathOnFile(path)
@@ -156,9 +161,12 @@ func walker(path string, d fs.DirEntry, err error) error {
 
 func runXpathOnFile(path string) {
 	defer fileSync.Done()
+	defer verifPoint("done", path)
 	defer func() {
+		verifPoint("release", path)
 		<-semaphore
 	}()
+	verifPoint("start", path)
 
 	parseType := *fileType
 
@@ -270,6 +278,7 @@ func executeXpath(cursor xsel.Cursor, path string) {
 		writeResult(&buffer, path, result)
 	}
 
+	verifPoint("print", path)
 	fmt.Print(buffer.String())
 }
 
